@@ -16,10 +16,10 @@ ASSUMPTIONS = ["derivative-dependent events: a crossing is counted only when |g|
                "terminal runs: only the rows actually recorded (up to the stop) are judged"]
 FLOORS = {"quick": {"crossing_steps_fwd_dense": 50, "crossing_steps_fwd_nodense": 50, "crossing_steps_bwd_dense": 50, "crossing_steps_bwd_nodense": 50,
                     "boundary_crossings": 4, "root_finder_calls_traced": 2000, "near_boundary_crossings_end": 8, "near_boundary_crossings_start": 8,
-                    "crossings_in_terminal_runs_fwd": 10, "crossings_in_terminal_runs_bwd": 10, "crossings_sharing_the_terminal_step": 6, "terminal_stops": 20, "crossings_of_extreme_scale_functions": 40},
+                    "crossings_in_terminal_runs_fwd": 10, "crossings_in_terminal_runs_bwd": 10, "crossings_sharing_the_terminal_step": 6, "terminal_stops": 20, "crossings_of_extreme_scale_functions": 40, "crossings_far_from_the_origin_with_fast_dynamics": 300},
           "thorough": {"crossing_steps_fwd_dense": 500, "crossing_steps_fwd_nodense": 500, "crossing_steps_bwd_dense": 500, "crossing_steps_bwd_nodense": 500,
                        "boundary_crossings": 40, "root_finder_calls_traced": 20000, "near_boundary_crossings_end": 40, "near_boundary_crossings_start": 40,
-                       "crossings_in_terminal_runs_fwd": 60, "crossings_in_terminal_runs_bwd": 60, "crossings_sharing_the_terminal_step": 30, "terminal_stops": 100, "crossings_of_extreme_scale_functions": 200}}
+                       "crossings_in_terminal_runs_fwd": 60, "crossings_in_terminal_runs_bwd": 60, "crossings_sharing_the_terminal_step": 30, "terminal_stops": 100, "crossings_of_extreme_scale_functions": 200, "crossings_far_from_the_origin_with_fast_dynamics": 1500}}
 QUICK_METHODS = ["RK45CKSolver", "DOPRI45", "RK4Solver", "EulerSolver", "RK8713MSolver", "ABAs5o6HSolver", "SymplecticEulerSolver",
                  "BackwardEuler", "RadauIIA5", "GaussLegendre4", "HeunEulerSolver", "MidpointSolver"]
 CASE_TIMEOUT = 900
@@ -51,6 +51,15 @@ def gen_cases(tier, seed):
                 t0 = float(rng.uniform(-4, 4))
                 cases.append(dict(kind="random", method=name, direction=d, dense=bool(rng.random() < 0.5), t0=t0, tf=t0 + d * L, nsteps=float(rng.uniform(25, 70)),
                                   nev=4, scale_decades=list(sd), pseed=int(rng.integers(1 << 30)), cost=(4 if M[name]["explicit"] else 28)))
+    # a time axis far from the origin with dynamics fast relative to it: the same function crosses every 2-4 steps, the crossings are ~1e-5 apart
+    # at |t| ~ 1e5..2e6 (distinct crossings in distinct steps - nothing about them is a duplicate)
+    for name in (["RK4Solver", "EulerSolver", "RK45CKSolver"] if tier == "quick" else [n for n in M if M[n]["explicit"]]):
+        for d in (1, -1):
+            for r in range(2 if tier == "quick" else 3):
+                t0 = float(rng.choice([-1, 1])) * float(10 ** rng.uniform(5, 6.3))
+                hh = float(rng.choice([5e-6, 2e-6, 1e-5]))
+                cases.append(dict(kind="far_fast", method=name, direction=d, dense=bool(rng.random() < 0.5), t0=t0, tf=t0 + d * 300 * hh, nsteps=300.0, nev=3,
+                                  pseed=int(rng.integers(1 << 30)), cost=6))
     # crossings exactly on step boundaries: fixed-step runs on a binary grid with time events at grid points
     for name in (["RK4Solver", "EulerSolver", "ABAs5o6HSolver", "MidpointSolver"] if tier == "quick" else [n for n in M if M[n]["explicit"] and not M[n]["adaptive"]]):
         for d in (1, -1):
@@ -144,6 +153,12 @@ def run_case(spec):
     if spec["kind"] == "boundary":
         for c in (0.5, 1.0, 1.5):
             evspecs.append({"kind": "time", "scale": float(10 ** rng.uniform(-3, 3)) * float(rng.choice([-1, 1])), "c": c, "direction": 0, "terminal": False})
+    elif spec["kind"] == "far_fast":
+        hh = L / spec["nsteps"]
+        for _ in range(spec["nev"]):
+            per = hh * float(rng.uniform(4.0, 9.0))
+            evspecs.append({"kind": "tsin", "omega": 2 * np.pi / per, "tref": t0 + float(rng.uniform(0, 1)) * per, "scale": float(10 ** rng.uniform(-6, 6)) * float(rng.choice([-1, 1])),
+                            "c": float(rng.uniform(-0.6, 0.6)), "direction": int(rng.choice([-1, 0, 0, 1])), "terminal": False})
     elif spec["kind"] == "near_boundary":
         evspecs, ref_rows = _near_boundary_events(spec, prob, info, f, y0, t0, tf, rng, dim, None)
         if not evspecs:
@@ -240,6 +255,8 @@ def run_case(spec):
                         rec.bump("boundary_crossings")
                     if spec.get("scale_decades"):
                         rec.bump("crossings_of_extreme_scale_functions")
+                    if spec["kind"] == "far_fast":
+                        rec.bump("crossings_far_from_the_origin_with_fast_dynamics")
                     if spec["kind"] == "near_boundary" and min(abs(a), abs(b)) <= 64 * eps * ev.gscale(tmax if ev.kind == "time" else ymax):
                         rec.bump("near_boundary_crossings")
                         rec.bump("near_boundary_crossings_%s" % ("end" if abs(b) < abs(a) else "start"))
